@@ -247,6 +247,23 @@ def check_case(x, NW, k, nfft, method, sbf=False, fs=1.0, tag='', parts=('pmtm',
                 p2()
                 if not same(p2.psd, psd):
                     bad.append(('precomputed_same/MultiTapering/' + kind, 'MultiTapering(e=, v=) differs from MultiTapering(NW=, k=)'))
+            # ANY supplied set is used as given: the same tapers in the opposite order (eigenvalues then increase), with and without a
+            # (redundant) NW next to them: eigenspectrum i belongs to supplied taper i, the eigenvalues come back as supplied
+            e2 = ev0[::-1].copy(); v2 = np.ascontiguousarray(tapers[:, ::-1])
+            for extra in ({}, {'NW': NW}):
+                lab = 'pmtm(e=, v=%s)' % (', NW=' if extra else '')
+                r3 = pmtm(x, e=e2.copy(), v=v2.copy(), NFFT=nfft, method=method, **extra)
+                S3 = np.asarray(r3[0]); w3 = np.asarray(r3[1]); e3 = np.asarray(r3[2])
+                if S3.shape != Skc_o.shape or np.max(np.abs(S3 - Skc_o[::-1])) > 1e-9 * sscale:
+                    bad.append(('precomputed_as_given/pmtm/' + kind, '%s: eigenspectrum i is not the DFT of supplied taper i times the data (tapers supplied in increasing order of eigenvalue)' % lab)); break
+                if e3.shape != e2.shape or not np.array_equal(e3, e2):
+                    bad.append(('precomputed_as_given/pmtm/' + kind, '%s: the returned eigenvalues are not the supplied ones' % lab)); break
+                if method == 'eigen' and (w3.shape != (kk, 1) or np.max(np.abs(w3[:, 0] - e2 / (np.arange(kk) + 1.0))) > 1e-12 * max(1.0, np.max(np.abs(e2)))):
+                    bad.append(('precomputed_as_given/pmtm/' + kind, '%s: eigen weights are not supplied eigenvalue/(index+1)' % lab)); break
+                # (adaptive weights: the iteration starts from the mean of the FIRST TWO eigenspectra, so its limit within the stopping
+                #  tolerance depends on the order of the tapers; only the shape is compared)
+                if method == 'adapt' and w3.shape != (n, kk):
+                    bad.append(('precomputed_as_given/pmtm/' + kind, '%s: adaptive weights have shape %r' % (lab, w3.shape))); break
         except Exception as e:  # noqa
             bad.append(('precomputed_raises/pmtm/' + kind, 'pmtm with precomputed tapers raised %r' % (e,)))
     return bad
